@@ -549,7 +549,7 @@ def route_cases(draw):
         for name, strat, p in (('xmldecl', st.just(False), 3), ('svgns', st.just(False), 3), ('nl', st.just(False), 3),
                                ('title', st.sampled_from(['T <&> "q"', 'Title', "it's"]), 3), ('desc', st.sampled_from(['D & d', 'desc']), 3),
                                ('svgid', st.just('myid'), 3), ('draw_transparent', st.just(True), 2),
-                               ('svgversion', st.sampled_from([1.1, 2.0]), 3), ('encoding', st.sampled_from(['iso-8859-1', 'utf-8']), 2)):
+                               ('svgversion', st.sampled_from([1.0, 1.1, 1.2, 2.0]), 3), ('encoding', st.sampled_from(['iso-8859-1', 'utf-8']), 2)):
             if draw(st.integers(0, 9)) < p:
                 opts[name] = draw(strat)
         r = draw(st.integers(0, 9))
@@ -608,6 +608,10 @@ def sequence_cases(draw):
         mk['symbol_count'] = draw(st.integers(1, 12))
     if draw(st.booleans()):
         mk['error'] = draw(st.sampled_from(['L', 'M', 'Q']))
+    if draw(st.booleans()):
+        mk['mask'] = draw(st.integers(0, 7))
+    if draw(st.integers(0, 3)) == 0:
+        mk['boost_error'] = False
     opts = {}
     if kind != 'txt' and draw(st.booleans()):
         opts['scale'] = draw(st.sampled_from([2, 3]))
